@@ -30,12 +30,37 @@ def s1(ctx, rep):
     mk = ctx.nodes(f, ctx.sel_call(selfcall="_mark_as_promoted"), "must", 0)
     # nodes that put the key "trial_id" into the returned dict
     rn = set()
+    keyed = {}          # node id -> keys of the answer that the node sets
     for n in cfg.nodes:
-        if n.kind == "stmt" and isinstance(n.ast, (ast.Assign, ast.Return)):
+        if n.kind != "stmt":
+            continue
+        ks = set()
+        if isinstance(n.ast, (ast.Assign, ast.Return)):
             v = n.ast.value
             d = dict_items(v) if v is not None else None
-            if d and "trial_id" in d:
+            if d:
+                ks |= set(d)
+            if isinstance(n.ast, ast.Assign) and isinstance(n.ast.targets[0], ast.Subscript) and isinstance(n.ast.targets[0].slice, ast.Constant):
+                ks.add(n.ast.targets[0].slice.value)
+        for x in cfg.node_walk(n.id):
+            if isinstance(x, ast.Call) and fn_name(x) == "update":
+                ks |= {k_.arg for k_ in x.keywords if k_.arg}
+                for a_ in x.args:
+                    d = dict_items(a_)
+                    if d:
+                        ks |= set(d)
+        ks &= {"trial_id", "resume_from", "milestone"}
+        if ks:
+            keyed[n.id] = ks
+            if "trial_id" in ks:
                 rn.add(n.id)
+    # the caller reads the ABSENCE of these keys as "nothing promoted, start a new trial at the bracket's first milestone"
+    from .common import dom_guard
+    loose = [nid for nid in keyed if not any(a[0] == "is" and a[2] == "None" and a[3] is False for a in dom_guard(ctx, f, nid))]
+    rep.put(not loose, "S1", "agreement", "PromotionRungSystem.on_task_schedule: trial_id / resume_from / milestone are returned only together with a promoted trial", f,
+            cfg.nodes[loose[0]].ast if loose else None, "", f"{sorted(keyed[loose[0]]) if loose else ''} is set although nothing is promoted: the caller takes a "
+            "missing 'milestone' as 'use the first milestone of the trial's bracket', so a new trial in a higher bracket is told to run to the "
+            "lowest rung level instead of its own")
     if not rn or not mk:
         raise AnchorError("PromotionRungSystem.on_task_schedule: marking / promotion dict not found")
     viol = [r for r in rn if cfg.path(cfg.entry, r, deleted=mk) is not None]
@@ -67,7 +92,9 @@ def s1(ctx, rep):
     ok = False
     for n in cfg.nodes:
         if n.id in rn:
-            d = dict_items(n.ast.value)
+            d = dict_items(n.ast.value) if isinstance(n.ast, (ast.Assign, ast.Return)) and n.ast.value is not None else None
+            if not d or d.get("resume_from") is None or d.get("milestone") is None:
+                continue
             # resume_from: the level of the rung where the hit was found; milestone: the level of the rung scanned before it
             lv = vars_assigned_from(f, lambda v: bool(loopv) and U(v) == f"{loopv[0]}.level")
             rf, ms_ = U(d.get("resume_from")), U(d.get("milestone"))
